@@ -23,6 +23,7 @@ CODE = {"AndLeftTrueNeedsFalseSet": True,     # fix: a true left operand of a co
         "PreferWildcardB3": False,            # fix: IndexedCache.retrieve follows every matching branch
         "ReplayLeavesOutRepeats": True,       # fix: a cached result stored under a partial binding is replayed once
         "ElseIfStoresDuplicates": True,       # fix: a disjunction did not cache the right-branch results it dropped as duplicates
+        "ForAllInvalidatesUniversal": "always",   # fix: a for_all over a sub-query ... (the universal's caches are cleared on an early exit)
         "ForAllKeepsConditionVars": True}     # fix: for_all lost solutions when its condition has a variable nobody above needs
 
 
